@@ -529,6 +529,7 @@ impl Prop for C15 {
             if !ctx.owns(i as u64) {
                 continue;
             }
+            ctx.note_inflight("C15", &case);
             if let Err(f) = self.check(ctx, &case, ev) {
                 report(case, f);
                 return;
